@@ -436,6 +436,8 @@ def total(ctx, facts):
                 kind = "index"
             elif t["t"] is None and not re.search(r"resume_unwind", fn):
                 kind = "panic"
+                if bb in flow.debug_only_blocks(b):
+                    kind = None         # a debug_assert!: not there in the shipped build
             if kind is None:
                 continue
             nsites += 1
@@ -537,11 +539,19 @@ def from_slice_len(facts, b, args):
     usz = ("const", "typenum::Unsigned::USIZE")
     # result goes through Option::map(closure)
     mapped = any((F.callee(t)[0] or "").endswith("Option::<T>::map") and "read_bytes" in str(flow.expr_of(root, t["args"][0])) for bb, t in root.calls())
+    # .. or through `let raw = self.read_bytes(n)?;` - the Some payload of the same call
+    RAW = None
     if not mapped:
-        return False, "the bytes given to from_slice are not the mapped result of read_bytes"
+        for bb, t in root.calls():
+            if (F.callee(t)[0] or "").endswith("Try::branch") and "read_bytes" in str(flow.expr_of(root, t["args"][0], max_depth=6)):
+                RAW = ("proj", ("call", "std::ops::Try::branch", (flow.expr_of(root, t["args"][0], max_depth=30),)), "as:Continue", "0")
+        if RAW is None:
+            return False, "the bytes given to from_slice are not the mapped result of read_bytes"
     x = str(args[0])
+    def is_raw(e_txt):
+        return RAW is not None and ("Try::branch" in e_txt and "read_bytes" in e_txt and "'as:Continue'" in e_txt)
     if n == usz:
-        ok = x in ("('call', 'std::ops::Deref::deref', (('arg', 2),))", "('arg', 2)")
+        ok = x in ("('call', 'std::ops::Deref::deref', (('arg', 2),))", "('arg', 2)") if mapped else (is_raw(x) and "chunks" not in x)
         return ok, ("read_bytes(Size) returns exactly Size bytes (LEN) and the whole result is used" if ok else "from_slice is applied to something other than the whole read_bytes(Size) result")
     if n[0] == "bin" and n[1] == "Mul" and usz in (flow.strip_casts(n[2]), flow.strip_casts(n[3])):
         # argument must be an item of chunks(Size) over the closure argument
@@ -550,6 +560,11 @@ def from_slice_len(facts, b, args):
         for pb in parent:
             for bb, t in pb.calls():
                 if re.search(r"<impl \[T\]>::chunks(_exact)?$", F.callee(t)[0] or "") and flow.expr_of(pb, t["args"][1]) == usz and "('arg', 2)" in str(flow.expr_of(pb, t["args"][0])):
+                    ch = True
+        if not mapped:
+            # the chunks() call sits in the reader itself, over the `?` payload
+            for bb, t in root.calls():
+                if re.search(r"<impl \[T\]>::chunks(_exact)?$", F.callee(t)[0] or "") and flow.strip_casts(flow.expr_of(root, t["args"][1])) == usz and is_raw(str(flow.expr_of(root, t["args"][0], max_depth=30))):
                     ch = True
         ok = ch and x == "('arg', 2)"
         return ok, ("read_bytes(count*Size) split by chunks(Size): every chunk has exactly Size bytes" if ok else "from_slice is not applied to chunks(Size) of a read_bytes(count*Size) result")
@@ -628,6 +643,31 @@ def eof(ctx, facts, ex):
         name = ty.split("<")[0]
         arms = [a for a in variant_arms(b, IN + "ExtendResult", facts)]
         rn = ready_none_blocks(b)
+        if arms and not rn and need_pending:
+            # `return Poll::Ready(pending.is_some().then(|| Err(..)))` in the Finished arm: None exactly when no length
+            # prefix is pending, an Err otherwise - the whole clause in one expression
+            fin_t0 = [a[2].get("Finished") for a in arms if a[2].get("Finished") is not None]
+            dom0 = b.dominators()
+            then_ok = False
+            old_cd = flow.CLOSURE_DEFS
+            flow.CLOSURE_DEFS = True
+            try:
+                for bb_, idx_, s_ in b.iter_assigns():
+                    r_ = s_["r"]
+                    if s_["p"] == [0] and r_["k"] == "agg" and r_.get("vn") == "Ready" and any(flow.dominates(dom0, ft, bb_) for ft in fin_t0):
+                        e_ = flow.strip_casts(flow.expr_of(b, r_["ops"][0], max_depth=10))
+                        if e_[0] == "call" and re.search(r"bool>::then$|bool::then$", e_[1]) and len(e_[2]) == 2:
+                            cond = str(e_[2][0])
+                            cl_ = e_[2][1]
+                            cb_ = facts.bodies.get(cl_[1][1]) if cl_[0] == "agg" and isinstance(cl_[1], tuple) else None
+                            yields_err = cb_ is not None and any(s2["r"]["k"] == "agg" and s2["r"].get("vn") == "Err" for _, _, s2 in cb_.iter_assigns())
+                            then_ok = "Option::<T>::is_some" in cond and "pending_len" in cond and yields_err
+            finally:
+                flow.CLOSURE_DEFS = old_cd
+            if then_ok:
+                ctx.ob("EOF", f"{name}:none-only-when-finished", True, "the stream ends only when extend() reported Finished", site_of(b))
+                ctx.ob("EOF", f"{name}:pending-length-is-error", True, "a length prefix without its body at end of input => Err, not end-of-stream", site_of(b))
+                continue
         if not arms or not rn:
             ctx.missing("EOF", f"{name}: ExtendResult match / Ready(None)")
             continue
@@ -683,7 +723,18 @@ def eof(ctx, facts, ex):
     else:
         ctx.count(bodies=1)
         dom = bb_.dominators()
-        nones = [bb for bb, idx, s in bb_.iter_assigns() if s["r"]["k"] == "agg" and s["r"].get("adt") == "std::option::Option" and s["r"].get("vn") == "None"]
+        # only the None that becomes the stream's item (`Ready(None)`, directly or through the local that Ready(..) wraps);
+        # other Option values in the body (e.g. "nothing to hand out yet") are not ends of the stream
+        ret_locals = set()
+        for bb, idx, s in bb_.iter_assigns():
+            if s["p"] == [0] and s["r"]["k"] == "agg" and s["r"].get("vn") == "Ready" and s["r"].get("ops"):
+                l_ = F.op_local(s["r"]["ops"][0])
+                if l_ is not None:
+                    ret_locals |= {l_}
+                    for dbb, didx, d in bb_.defs().get(l_, []):
+                        if didx != "t" and d["k"] == "use" and F.op_local(d["o"]) is not None:
+                            ret_locals.add(F.op_local(d["o"]))
+        nones = [bb for bb, idx, s in bb_.iter_assigns() if s["r"]["k"] == "agg" and s["r"].get("adt") == "std::option::Option" and s["r"].get("vn") == "None" and (s["p"][0] in ret_locals or s["p"] == [0])]
         gs = [g for g in malsec.guards(bb_, r"Vec::<T, A>::is_empty$") if "buffer" in str(g[1])]
         ok = bool(nones) and bool(gs) and all(any(flow.dominates(dom, g[2][1], n) for g in gs) for n in nones)
         ctx.ob("EOF", "BufferedBytesStream:none-only-if-buffer-empty", ok, "upstream done + empty buffer => None" if ok else "BufferedBytesStream can end the stream while bytes are still buffered (tail lost)", site_of(bb_, nones[0]) if nones else site_of(bb_))
@@ -943,6 +994,20 @@ def items_flushed(ctx, facts):
         if s["p"] != [0]:
             continue
         e = str(flow.expr_of(b, s["r"]["ops"][0])) if s["r"]["k"] == "agg" and s["r"].get("ops") else ""
+        # `let outcome = if .. { Err(e) } else { Ok(items) }; return Ready(Some(outcome))`: judge each definition of the
+        # value that is returned, where it is made
+        inner = flow.strip_casts(flow.expr_of(b, s["r"]["ops"][0], max_depth=6)) if s["r"]["k"] == "agg" and s["r"].get("ops") else None
+        multi = None
+        if inner is not None and inner[0] == "agg" and isinstance(inner[1], tuple) and inner[1][1] == "Some" and inner[2] and flow.strip_casts(inner[2][0])[0] == "place" and len(flow.strip_casts(inner[2][0])) == 2:
+            multi = flow.strip_casts(inner[2][0])[1]
+        if multi is not None and s["r"].get("vn") == "Ready":
+            for dbb, didx, d in b.defs().get(multi, []):
+                de = str(flow.expr_of(b, d["ops"][0])) if didx != "t" and d["k"] == "agg" and d.get("ops") else ""
+                if didx != "t" and d["k"] == "agg" and d.get("vn") == "Ok" and str(items) in de:
+                    good.append(dbb)
+                else:
+                    other.append((dbb, didx, "Ready", "'Err')" if (didx != "t" and d.get("vn") == "Err") else de))
+            continue
         if s["r"]["k"] == "agg" and s["r"].get("vn") == "Ready" and "'Ok')" in e and str(items) in e:
             good.append(bb)
         else:
